@@ -442,6 +442,22 @@ theorem radialQuot_floor_iff (k2 inner outer : ℚ) (nb r : ℕ) (hk : 0 ≤ k2)
       rw [lt_div_iff₀ hn] at h3
       linarith
 
+/-- For any number of sectors and any rotation: the generated sector index `floor(na·φ/2π)` of an angle
+`φ ∈ [0, 2π)` (what `(phi - rotation) % (2π)` produces) already lies in `[0, na)`, so after the clip every pixel of the
+annulus carries an azimuthal index `a < na` — the hypothesis `binLabel_range` / `segments_sum_eq_annular` need. -/
+theorem azimuthal_in_range (phi : ℝ) (na : ℕ) (hna : 1 ≤ na) (h0 : 0 ≤ phi) (h1 : phi < 2 * Real.pi) :
+    0 ≤ AbtemVerif.Gen.DetectR.azimuthalQuot phi (na : ℝ) ∧ AbtemVerif.Gen.DetectR.azimuthalQuot phi (na : ℝ) < (na : ℤ) := by
+  unfold AbtemVerif.Gen.DetectR.azimuthalQuot pyFloorR
+  have hpi : (0 : ℝ) < 2 * Real.pi := by positivity
+  have hn : (0 : ℝ) < (na : ℝ) := by exact_mod_cast hna
+  have hq0 : 0 ≤ phi / (2 * Real.pi) := div_nonneg h0 hpi.le
+  have hq1 : phi / (2 * Real.pi) < 1 := by rw [div_lt_one hpi]; exact h1
+  constructor
+  · exact Int.floor_nonneg.2 (mul_nonneg hn.le hq0)
+  · rw [Int.floor_lt]
+    push_cast
+    nlinarith
+
 /-! ### the flexible detector -/
 
 /-- **Flexible bins have the width the axis metadata states.**  With the binned range of `angular_limits`
